@@ -284,7 +284,7 @@ def run(repo: Repo, rep: Report, tier: str) -> None:
                 bad13.append(f"type read from `{row[-60:]}`, which is not the row the name came from")
                 continue
             bad13.append(f"type `{t[-70:]}` is not a category lookup")
-        key13 = "name=" + " | ".join(sorted(a.replace(P, "P") for a in n_alts))
+        key13 = "name=" + min((a.replace(P, "P") for a in n_alts), key=lambda a: (len(a), a))
         rep.check(not bad13, "C06-R13", f"{f13.short}: signal dict {key13}",
                   f"type alternatives {[a[-60:] for a in t_alts]}" if not bad13 else "; ".join(bad13) +
                   ": e.g. `Signal x = (\"iron-plate\", 5); lamp.enable = x;` makes the lamp watch a virtual signal called iron-plate, which nothing ever sends", f13.loc(n))
